@@ -16,7 +16,7 @@
    when one level nests many Go calls (known findings recursion-through-fresh-stack/any,
    recursion-deep-body/any).  C05_no_fatal_partial is the property under "no fault source exhausts
    the Go stack". *)
-From P2 Require Import Base.Prelude Sem.Num Sem.Syntax Sem.Ops Sem.Lib Conc.Crash Conc.CrashProofs Conc.NoPanicProofs.
+From P2 Require Import Base.Prelude Sem.Num Sem.Syntax Sem.Ops Sem.Lib Sem.Ref Conc.Crash Conc.CrashProofs Conc.NoPanicProofs Conc.TryProofs.
 Require Import Sorted.
 Local Open Scope N_scope.
 
@@ -61,6 +61,19 @@ Theorem C05_faults_are_catchable : forall D sc p,
   (run code_sites D sc Main p = RErr \/ run code_sites D sc Main p = RPanic) ->
   class code_sites D sc (PTry p) = CCatch.
 Proof. exact (fun D sc p => try_catches_class code_sites D sc p eq_refl). Qed.
+
+(* the reference semantics of try/catch (Sem/Ref.v): whenever the try expression ends in a returned error
+   - whatever its source - the value of the catch expression comes back (a catch closure with one
+   parameter is applied to the message instead: excluded here) *)
+Theorem C05_try_catches_returned_errors : forall known f env t c thrown v,
+  eval known f env t = Err thrown -> eval known f env c = Ok v ->
+  (forall p b cp s, v <> VClo [p] b cp s) ->
+  eval known (S f) env (ATry t c) = Ok v.
+Proof. exact eval_try_catches. Qed.
+
+Theorem C05_try_keeps_values : forall known f env t c v,
+  eval known f env t = Ok v -> eval known (S f) env (ATry t c) = Ok v.
+Proof. exact eval_try_keeps_values. Qed.
 
 (* ---- the property ---- *)
 
@@ -135,6 +148,8 @@ Print Assumptions C05_static_never_panics.
 Print Assumptions C05_method_never_panics.
 Print Assumptions C05_main_fault_is_error.
 Print Assumptions C05_faults_are_catchable.
+Print Assumptions C05_try_catches_returned_errors.
+Print Assumptions C05_try_keeps_values.
 Print Assumptions C05_no_fatal_partial.
 Print Assumptions C05_no_fatal_sites_partial.
 Print Assumptions C05_no_fatal_refuted.
